@@ -16,12 +16,17 @@ structure PeerEntry where
   p : PeerSt
   b : BackendSt
   cb : CmdBackend := {}
+  gen : Nat := 0                      -- identity of the Peer object (a fresh number for every NewPeer)
+  specSources : List String := []     -- the connection as configured (`Connection.Equals` compares these)
+  specFlags : List String := []
   deriving Inhabited
 
 structure WState where
   w : World
   now : Int
   peers : List PeerEntry
+  listeners : List String := []
+  nextGen : Nat := 0
   deriving Inhabited
 
 def parseCfg (j : Json) : Cfg :=
@@ -47,6 +52,66 @@ def parseWorld (schema : Schema) (now : Int) (j : Json) : WState :=
              cfgFlags := if icinga then flagBit schema "Icinga2" else 0 },
       b := { tables := tables, cols := cols } : PeerEntry }
   { w := { cfg := parseCfg (jObj j "config"), schema := schema, mainRestart := now }, now := now, peers := peers }
+
+/-- a new peer for a configured connection (`NewPeer`), wired to the given object set -/
+def freshEntry (schema : Schema) (gen : Nat) (id name : String) (sources flags : List String)
+    (tables : List (String × List ReplyRow)) (cols : List (String × List String)) : PeerEntry :=
+  let srcs := sources.map fun s => if s == "dead" then Addr.dead else Addr.self
+  let srcs := if srcs.isEmpty then [Addr.self] else srcs
+  let icinga := flags.any (fun f => goLower f == "icinga2")
+  { id := id, name := if name == "" then "Backend " ++ id else name, gen := gen, specSources := sources, specFlags := flags,
+    p := { sources := srcs, addr := srcs.headD .self, flags := if icinga then flagBit schema "Icinga2" else 0,
+           cfgFlags := if icinga then flagBit schema "Icinga2" else 0 },
+    b := { tables := tables, cols := cols } }
+
+def backendTables (bj : Json) : List (String × List ReplyRow) × List (String × List String) :=
+  ((jFields (jObj bj "tables")).map fun (name, tj) => (name, (jArr tj "rows").map fun row => (jFields row)),
+   (jFields (jObj bj "tables")).map fun (name, tj) => (name, jStrs tj "cols"))
+
+/-- `initializePeers` on a reload: a connection whose settings are unchanged keeps its peer (object, cache, counters),
+    every other configured connection gets a new peer that is synchronised from its source; peers of connections that
+    are gone are dropped; the order is the order of the configuration -/
+def reloadPeers (schema : Schema) (ws : WState) (conns : List Json) : WState :=
+  let step := fun (acc : List PeerEntry × Nat) (cj : Json) =>
+    let (out, gen) := acc
+    let id := jStr cj "id"
+    let name := if jStr cj "name" == "" then "Backend " ++ id else jStr cj "name"
+    let sources := jStrs cj "sources"
+    let flags := jStrs cj "flags"
+    match ws.peers.find? (·.id == id) with
+    | some old =>
+      if old.name == name && old.specSources == sources && old.specFlags == flags then (out ++ [old], gen)
+      else
+        -- the object set behind the (new) source
+        let (tables, cols) :=
+          match sources.head? with
+          | some s =>
+            if s.startsWith "other:" then
+              match ws.peers.find? (·.id == (s.drop 6).toString) with
+              | some o => (o.b.tables, o.b.cols)
+              | none => (old.b.tables, old.b.cols)
+            else (old.b.tables, old.b.cols)
+          | none => (old.b.tables, old.b.cols)
+        let e := freshEntry schema gen id name sources flags tables cols
+        let e := { e with b := { e.b with mode := if sources.head? == some "dead" then "refuse" else "ok" } }
+        let r := initAllTables ws.w ws.now e.p e.b
+        (out ++ [{ e with p := r.p, b := r.b }], gen + 1)
+    | none =>
+      let (tables, cols) :=
+        match sources.head? with
+        | some s =>
+          if s.startsWith "other:" then
+            match ws.peers.find? (·.id == (s.drop 6).toString) with
+            | some o => (o.b.tables, o.b.cols)
+            | none => backendTables cj
+          else backendTables cj
+        | none => backendTables cj
+      let e := freshEntry schema gen id name sources flags tables cols
+      let e := { e with b := { e.b with mode := if sources.head? == some "dead" then "refuse" else "ok" } }
+      let r := initAllTables ws.w ws.now e.p e.b
+      (out ++ [{ e with p := r.p, b := r.b }], gen + 1)
+  let (peers, gen) := conns.foldl step ([], ws.nextGen)
+  { ws with peers := peers, nextGen := gen }
 
 def WState.dataset (ws : WState) (base : Dataset) : Dataset :=
   { base with backends := ws.peers.map fun e =>
@@ -106,6 +171,19 @@ def worldStep (schema : Schema) (ws? : Option WState) (clock : Int) (j : Json) :
     (ws?.map (fun ws => { ws with now := t }), t, none)
   | "world", _ =>
     (some (parseWorld schema clock (jObj j "world")), clock, none)
+  | "daemon", _ =>
+    let ws0 : WState := { w := { cfg := parseCfg (jObj j "config"), schema := schema, mainRestart := clock }, now := clock, peers := [] }
+    let ws := reloadPeers schema ws0 (jArr j "backends")
+    (some { ws with listeners := (jStrs j "listen").eraseDups }, clock, some (Json.mkObj (base ++ [("ok", .bool true)])))
+  | "reload", some ws =>
+    let ws := reloadPeers schema { ws with w := { ws.w with mainRestart := ws.now } } (jArr j "backends")
+    (some { ws with listeners := (jStrs j "listen").eraseDups }, clock, some (Json.mkObj (base ++ [("ok", .bool true)])))
+  | "dstate", some ws =>
+    let peers := ws.peers.map fun e => Json.mkObj [("id", .str e.id), ("gen", .num ⟨(e.gen : Int), 0⟩), ("name", .str e.name),
+      ("status", .num ⟨e.p.status.num, 0⟩), ("has_data", .bool e.p.cache.isSome), ("queries", .num ⟨(e.b.hits : Int), 0⟩),
+      ("dead", .bool (e.specSources.head? == some "dead")),
+      ("source", .str (match e.specSources.head? with | some s => if s.startsWith "other:" then (s.drop 6).toString else if s == "dead" then "dead-" ++ e.id else e.id | none => e.id))]
+    (some ws, clock, some (Json.mkObj (base ++ [("peers", .arr peers.toArray), ("listeners", .arr (ws.listeners.map Json.str).toArray)])))
   | "advance", some ws =>
     let d := (jNat j "seconds" : Int)
     (some { ws with now := ws.now + d }, clock + d, none)
